@@ -15,7 +15,7 @@ def segment_bytes(is_eflr, rtype, first, last, seg):
         | (0x04 if seg['checksum'] else 0) | (0x02 if seg['trailing'] else 0) | (0x01 if seg['pad'] else 0)
     body = seg['payload']
     if seg['pad']:
-        body = body + bytes([0] * (seg['pad'] - 1)) + bytes([seg['pad']])
+        body = body + pad_bytes(seg)
     length = 4 + len(body) + (2 if seg['checksum'] else 0) + (2 if seg['trailing'] else 0)
     out = bytes([length >> 8, length & 0xff, attr, rtype]) + body
     if seg['checksum']:
@@ -23,6 +23,14 @@ def segment_bytes(is_eflr, rtype, first, last, seg):
     if seg['trailing']:
         out = out + bytes([length >> 8, length & 0xff])
     return out
+
+
+def pad_bytes(seg):
+    """The pad bytes of a segment: pad count in the last byte.  In an ENCRYPTED segment the padding is part of the encrypted data, so what is
+    on the medium there is arbitrary: 0xF7 stands in for it (deliberately larger than any segment body used here)."""
+    if seg['encrypted']:
+        return bytes([0xA5] * (seg['pad'] - 1)) + bytes([0xF7])
+    return bytes([0] * (seg['pad'] - 1)) + bytes([seg['pad']])
 
 
 def conformant_segment(seg):
@@ -73,6 +81,6 @@ def expected(records):
             pl = pl + s['payload']
             if s['encrypted'] and s['pad']:
                 # pad bytes of an encrypted segment are inside the encrypted data and cannot be identified: they stay (RP66V1 2.2.2.1 note)
-                pl = pl + bytes([0] * (s['pad'] - 1)) + bytes([s['pad']])
+                pl = pl + pad_bytes(s)
         out.append((is_eflr, rtype, pl))
     return out
